@@ -6,5 +6,5 @@ import SmtpV.Props.C19
 #print axioms SmtpV.Props.C19.C19_tripped_ends_commands
 #print axioms SmtpV.Props.C19.C19_resume_short_ok
 #print axioms SmtpV.Props.C19.C19_resume_counts_pending
-#print axioms SmtpV.Props.C19.cutAtBdat_prefix
 #print axioms SmtpV.Props.C19.C19_next_chunk_payload_not_counted
+#print axioms SmtpV.Props.C19.C19_unusable_bdat_line_counted_on
